@@ -125,7 +125,7 @@ pub fn run_one(seed: u64, thorough: bool) -> (Vec<Violation>, std::collections::
                         let uri: http::Uri = format!("{}/r{rid}", origins[o].uri).parse().unwrap();
                         let step = w.tick();
                         w.reqs.push(ReqRec {
-                            id: rid, uri: uri.to_string(), origin: origin_of(&uri), h2, probe: false, issued_step: step, issued_instant: Instant::now(), prev_activity: None, state: ReqState::Checkout,
+                            id: rid, uri: uri.to_string(), origin: origin_of(&uri), h2, probe: false, issued_step: step, issued_instant: Instant::now(), prev_activity: None, offered_since_poll: vec![], state: ReqState::Checkout,
                             dial: None, conn: None, handoff_step: None, handoffs: 0, responded: false, body_done: false, upgrade: false, cancelled_step: None, finished_step: None,
                             error: None, polls: 0, resp_waker: None, respond: None, avail_at_issue: vec![], must_use_idle: false, waits_on: None, is_owner: false,
                             timeout_ms: None, issued_vtime_ms: 0, finished_vtime_ms: None, respond_vtime_ms: None,
